@@ -77,3 +77,58 @@ def rule_sibling_evaluation(chk, rid, what):
                           "%s evaluates a child expression (line %s) in a state where an earlier child's result may be an error/abort/return: the later "
                           "child's side effects happen although the expression already %s" % (n.split(" as ")[0].lstrip("<"), ln, what), detail=d,
                           loc="%s:%s" % (b.file, ln))
+
+
+RUNNER_CALL = re.compile(r"closure::Runner::<.*>::(run_key_value|run_index_value|map_key|map_value)$")
+
+
+def rule_iteration_stops(chk, rid, what):
+    """closure-taking stdlib functions stop iterating at the first abort / return / error of the closure"""
+    facts = chk.facts
+    chk.rule(rid, "every body that invokes a closure Runner method hands the Runner's Result on (its own return type carries ExpressionError) and never "
+                  "invokes the Runner again once an invocation failed (%s)" % what, floor=6)
+    n_bodies = 0
+    for i in facts.index:
+        n = i["name"]
+        if not any(RUNNER_CALL.search(c) for c in i["callees"]):
+            continue
+        if n.startswith("compiler::function::closure::"):
+            continue
+        n_bodies += 1
+        b = facts.body(n)
+        ret = b.local_ty(0)
+        carries = "ExpressionError" in ret
+        evals = [(bb, t) for bb, t in b.calls() if RUNNER_CALL.search(b.callee(t))]
+        res_locals = [t["dest"]["l"] for bb, t in evals]
+        cf_of = {}
+        for bb, t in b.calls():
+            if b.callee(t).endswith("as std::ops::Try>::branch") and t["args"] and op_local(t["args"][0]) in res_locals:
+                cf_of[t["dest"]["l"]] = op_local(t["args"][0])
+        track = sorted(set(res_locals) | set(cf_of))
+        vf = VarFlow(facts, b, extra_locals=track)
+        again = {}
+
+        def on_term(bb, t, st, b=b, evals=evals, cf_of=cf_of, res_locals=res_locals, again=again, track=track):
+            if t["k"] != "call" or not RUNNER_CALL.search(b.callee(t)):
+                return
+            for l in track:
+                v = st.get("_%d" % l)
+                if v is None:
+                    continue
+                vs = set(v) - {MOVED}
+                if ("Err" in vs and l in res_locals) or ("Break" in vs and l in cf_of):
+                    again.setdefault(bb, t["ln"])
+        vf.run(on_term=on_term)
+        d = {"fn": n, "return_type_carries_the_error": carries, "runner_invocations": len(evals), "invoked_again_after_failure_at": sorted(again.values())}
+        ok = carries and not again
+        chk.instance(rid, d, ok=ok)
+        if not carries:
+            chk.violation(rid, b.file, n, "closure result not handed on",
+                          "%s invokes the closure through the Runner but its own return type (%s) cannot carry the closure's abort/return/error: the "
+                          "surrounding iteration keeps running the closure for the remaining items after the program already %s" % (n, ret[:60], what), detail=d,
+                          loc="%s:%d" % (b.file, b.line))
+        for bb, ln in sorted(again.items()):
+            chk.violation(rid, b.file, n, "closure invoked again after a failed invocation",
+                          "%s can invoke the closure again (line %s) in a state where an earlier invocation failed" % (n, ln), detail=d, loc="%s:%s" % (b.file, ln))
+    if n_bodies < 6:
+        chk.fail_closed(rid, "only %d bodies invoke a closure Runner method (expected >= 6)" % n_bodies)
